@@ -373,7 +373,7 @@ class Discharger:
                 k = cm.aff_key(c)
                 if k is not None and k[0] == '==' and k[2] == 0 and \
                         len(k[1]) == 1 and \
-                        list(k[1])[0][0].startswith('len(loopvar') and \
+                        list(k[1])[0][0].startswith('len(each(') and \
                         list(k[1])[0][0].endswith('[0])'):
                     out.add(fi.name)
                 if c[0] == 'not' and c[1][0] == 'truth' and \
